@@ -375,6 +375,41 @@ def r126(P, rep):
                 rep.ob('R12.6', key, o['verdict'] == 'holds', 'stage 2 would differ from stage 1 wherever chibicc\'s own sources use this construct: ' + o['what'], where=o['where'], facts=o['facts'])
 
 
+def _import(rep, rule, sub, why):
+    for o in sub.obs:
+        if o['verdict'] == 'known-finding':
+            continue
+        key = o['key'].replace(':', '/', 1)
+        if o['verdict'] == 'undecided':
+            rep.undecided(rule, key, o['what'], where=o['where'])
+        else:
+            rep.ob(rule, key, o['verdict'] == 'holds', why + o['what'], where=o['where'], facts=o['facts'])
+
+
+def r127(P, rep):
+    """the emitted data image reads only bytes [0, size) of the object's image buffer (bytes beyond it are heap residue that
+    changes with the allocation history and the address-space layout): C05's emit_data walk rule, re-used"""
+    from ..report import Report
+    from . import c05
+    rep.rule('R12.7', 'emit_data emits exactly the object\'s own image bytes: position-bounded by the object size, 8 bytes per relocation, 1 byte otherwise (same obligations as C05 R05.5); a read past the image is heap residue in the output', floor=6)
+    sub = Report('C05')
+    c05.r055(P, sub)
+    _import(rep, 'R12.7', sub, 'the output would depend on memory outside the object image (process state, address-space layout): ')
+
+
+def r128(P, rep):
+    """chibicc's own sources declare their globals `extern T x;` in chibicc.h and define them tentatively (`T x;`) in one unit:
+    stage 2 links only if scan_globals keeps such a definition. C15's bounded-exhaustive scan_globals rule, re-used"""
+    from ..report import Report
+    from ..chibi import CG
+    from . import c15
+    rep.rule('R12.8', 'self-compilation: scan_globals removes a tentative definition only next to another definition (chibicc.h + main.c use `extern T x;` with a tentative `T x;`); same obligations as C15 R15.5 scan_globals', floor=5)
+    sub = Report('C15')
+    sub.rule('R15.5', '', 1)
+    c15.r155_scan_globals(c15.ParseEnv(P, CG(P)), sub)
+    _import(rep, 'R12.8', sub, 'stage 2 would not link or would differ where chibicc\'s own sources rely on this: ')
+
+
 # ------------------------------------------------------------------------ run ---
 def run(P, rep, tier):
     rep.explanation = ('Determinism clause of C12 only: which functions may obtain a value that differs from run to run (time, pid, random, environment, '
@@ -392,6 +427,8 @@ def run(P, rep, tier):
     rep.rule('R12.5', 'self-application lint: chibicc\'s own units do not contain constructs that a known finding says chibicc miscompiles (fp -> unsigned 64-bit, unsigned 64-bit -> float, discarded long double value, value of a long double assignment); an item retires when its finding is no longer listed', floor=13)
     run_canary(P, rep)
     r126(P, rep)
+    r127(P, rep)
+    r128(P, rep)
     cg = L.CallGraph(P)
     units = [P.unit(n) for n in P.unit_names]
     # ---------------- R12.1
